@@ -114,6 +114,9 @@ def boundary_cases():
         n = 10000 + d
         add('script10000/pushes/%s' % POS[d], fill_to(n))
         add('script10000/nops-then-pushes/%s' % POS[d], fill_to(n, bytes([OP_NOP]) * 150))
+        # the limit applies to every script that is evaluated: also to a scriptPubKey reached after a scriptSig
+        add('script10000/scriptPubKey/%s' % POS[d], bytes([OP_1]), succ=fill_to(n), svs=[BASE])
+        add('script10000/scriptSig-before-small-scriptPubKey/%s' % POS[d], fill_to(n), succ=bytes([OP_1]), svs=[BASE])
     # ---- 4-byte numeric operands, 5-byte lock-time operands
     for n in (3, 4, 5):
         v = b'\x01' * n
